@@ -44,6 +44,7 @@ func Run(c *hx.Ctx) {
 	c.Rep.Rule = "exhaustive: 256 codes x 6 named encodings (+ unknown names) against independent reference tables and x/text charmaps; " +
 		"generated: code->text maps (1-300 entries, code width 1-4, targets ASCII/BMP/ligature/multi-char/combining/astral) rendered by an " +
 		"independent CMap writer under every formatting policy (bfchar lines / one line / bfrange offset / bfrange array / arrays spanning lines; LF, CRLF), " +
+		"the same maps as arbitrary arrangements of entries (each run whole or cut in two, each part as bfchar entries, an offset-target or an array-target bfrange entry; entries ascending, descending, rotated or shuffled; sections of 1-100 entries alternating between bfchar and bfrange or grouped, array and offset targets sharing sections or not; for maps of three short runs exhaustively every assignment of entry forms x every order of the entries x one section per entry or as few as possible), " +
 		"mutated (malformed) programs, scalar strings through UTF-16BE/LE (all scalars swept), byte strings through (*Font).DecodeString and text.Extractor, " +
 		"every name of an independent excerpt of the Adobe Glyph List (and names outside the list) through the package's glyph list, fonts with a Differences map (characters of the glyph list, arbitrary scalars, combining marks, rune 0 and invalid runes; with and without a ToUnicode CMap beside it) through DecodeString, font dictionaries whose /Encoding dictionary has /Differences (1-4 runs of Adobe Glyph List names and of names outside the list, runs naming a code again, with or without /BaseEncoding, Type1 and TrueType) in the documents below, one-page PDFs (TrueType font with /Encoding and /ToUnicode) through tabula.Open(f).Fragments(), " +
 		"one-page PDFs with 2-4 font dictionaries (TrueType/Type1/Type0; sharing one BaseFont or not; each with its own ToUnicode and/or /Encoding, the same codes mapped differently; " +
@@ -54,6 +55,8 @@ func Run(c *hx.Ctx) {
 	runUTF16(c)
 	runTokens(c)
 	runCMaps(c)
+	runCMapLayoutsSmall(c)
+	runCMapLayouts(c)
 	runMalformed(c)
 	runFonts(c)
 	runDifferences(c)
